@@ -137,9 +137,11 @@ def primary_dispatch(ctx, rule, fn, result_local_name=None, min_lits=10):
         if c:
             res_local = c[0]
     if res_local is None:
-        # role-based: the local defined in the largest number of arm regions
+        # role-based: the user local holding an optional (boxed) value that is defined in the largest number of places
         best = None
         for l, defs in prim.local_defs(fn).items():
+            if l == 0 or fn.local_name(l) is None or not fn.local_ty(l).startswith("std::option::Option<"):
+                continue
             n = len([1 for bb, kind, _ in defs if kind in ("assign", "call")])
             if best is None or n > best[0]:
                 best = (n, l)
